@@ -47,6 +47,16 @@ type PipeBuffer interface {
 	io.Reader
 }
 
+// Len returns the number of bytes buffered and not yet read.
+func (p *Pipe) Len() int {
+	p.mu.Lock()
+	defer p.mu.Unlock()
+	if p.b == nil {
+		return 0
+	}
+	return p.b.Len()
+}
+
 // Read waits until data is available and copies bytes
 // from the buffer into p.
 func (p *Pipe) Read(d []byte) (n int, err error) {
